@@ -106,14 +106,16 @@ for periodic in (False, True):
         ncells = int(rng.randint(4, 12))
         lo, hi = -1.0 + rng.rand(), 2.0 + rng.rand()
         br = np.linspace(lo, hi, ncells + 1)
-        kn = make_knots(br, 3, periodic)
-        nb = len(kn) - 4
+        kn_true = make_knots(br, 3, periodic)
+        nb = len(kn_true) - 4
+        # the uniform-cubic kernels take [xmin, xmax, dx, ncells] in place of the knot vector (BSplines.knots when cubic_uniform)
+        kn = BSplines(kn_true, 3, periodic, True).knots
         x = xs_for(br, n)
         x = np.clip(x, lo, hi)
         c = rng.randn(nb)
         if periodic:
             c[nb - 3:] = c[:3]
-        dx = kn[4] - kn[3] if periodic else br[1] - br[0]
+        dx = br[1] - br[0]
         tag = 'cu_%s_%d' % ('per' if periodic else 'clamp', rep)
         if periodic:
             sp = [CU.cu_find_span(br[0], br[-1], dx, xi, ncells) for xi in x]
@@ -133,8 +135,9 @@ for periodic in (False, True):
         CU.cu_eval_spline_1d_vector(x, kn, 3, c, y1, 1)
         nc2 = int(rng.randint(4, 9))
         br2 = np.linspace(0.0, 2 * np.pi, nc2 + 1)
-        kn2 = make_knots(br2, 3, True)
-        nb2 = len(kn2) - 4
+        kn2_true = make_knots(br2, 3, True)
+        nb2 = len(kn2_true) - 4
+        kn2 = BSplines(kn2_true, 3, True, True).knots
         C = rng.randn(nb, nb2)
         X = x[::3]
         Y = np.clip(xs_for(br2, 4), 0, 2 * np.pi)[::2]
